@@ -67,6 +67,11 @@ def drift_cases(tier):
                     if list(offs) != sorted(offs):
                         continue
                     out.append((tps, tuple(allocs), (0,) + tuple(offs)))
+    # the upper end of the tick-rate range: steps of 0.2 / 0.8 MB per tick, allocations of a few MB
+    for tps, allocs_set in ((100000, (0.001, 0.003, 0.005)), (25000, (0.004, 0.012, 0.02))):
+        for allocs in itertools.product(allocs_set, repeat=3):
+            for offs in ((0, 0), (0, 2), (1, 2)):
+                out.append((tps, tuple(allocs), (0,) + offs))
     return out
 
 
@@ -78,6 +83,29 @@ def drift_scenario(case, overcommit):
     return dict(name="F3-drift", tps=tps, pools=1, cpus=16, ram=float(sum(allocs)), overcommit=overcommit, multi=True, horizon=hor, pipelines=pipes)
 
 
+def crowd_cases(tier):
+    """MANY containers in one over-committed pool: `kills` of them have to go, the survivors fill the pool EXACTLY (their
+    number is a power of two, so survivors x usage is an exact float whatever the usage). Sizes follow the constants of the
+    executor sources (mc/scale.py)."""
+    from .. import scale as _scale
+    c, info = _scale.size(["executor/"], 24, 3000, factor=1)
+    surv = 16
+    while surv <= c:
+        surv *= 2
+    out = []
+    for mem in (0.7, 0.1, 0.3):
+        for kills in sorted({max(3, c // 2 - 3), c + 36, 2 * c + 77 if c > 24 else 9}):
+            out.append(("crowd", surv, kills, mem))
+    return out
+
+
+def crowd_scenario(case, overcommit=True):
+    _, surv, kills, mem = case
+    n = surv + kills
+    pipes = [dict(prio="B", arrival=0, alloc=mem, profile=f"fix{mem}", parents=[[]], ops=[[dict(cpu=1.0, scaling="const", mem=mem, read=0)]]) for _ in range(n)]
+    return dict(name="F3-crowd", tps=2, pools=1, cpus=n, ram=mem * surv, overcommit=overcommit, multi=True, horizon=4, pipelines=pipes)
+
+
 def drift_work(chunk):
     tot = f1.new_acc()
 
@@ -85,7 +113,12 @@ def drift_work(chunk):
         choices = []
     for case in chunk:
         for oc in (False, True):
-            sc = drift_scenario(case, oc)
+            if case[0] == "crowd":
+                if not oc:
+                    continue
+                sc = crowd_scenario(case, oc)
+            else:
+                sc = drift_scenario(case, oc)
             w = run(sc)
             s = f1.summarize(sc, _Ch, w)
             s["mm"] = [(t, k, site, d, dict(drift=case, overcommit=oc)) for (t, k, site, d, _) in s["mm"]]
